@@ -204,4 +204,33 @@ def check(ctx):
                    "spike is derived as refrac == refrac_t and refrac_t = 0 is accepted: the resting value clamp(...)=0 then equals refrac_t, "
                    "so every non-refractory neuron reports a spike although the step returned none",
                    sp.where)
+    # ---------------- (g) initial state: at rest, not refractory, no adaptation (what step 1 starts from)
+    ninit = 0
+    for c in sorted(classes, key=lambda c: c.name):
+        init = c.methods.get("__init__")
+        if init is None:
+            continue
+        b = terms.Builder(P, init, {}, inline_depth=0)
+        for x in P.calls_in(init):
+            d = dotted(x.func) or ""
+            if not d.endswith("Mixin.__init__") or len(x.args) < 2:
+                continue
+            mix = d.split(".")[0]
+            st_arg = x.args[1]
+            if mix == "VoltageMixin":
+                ok = nf.equal(b.t(st_arg), specs.spec_term("torch.full(self.batchedshape, self.rest_v)"))
+                what = "voltages start at the resting potential"
+            elif mix in ("SpikeRefractoryMixin", "RefractoryMixin"):
+                ok = isinstance(st_arg, ast.Call) and dotted(st_arg.func) in ("torch.zeros", "zeros") and len(st_arg.args) == 1 and dotted(st_arg.args[0]) == "self.batchedshape"
+                what = "no neuron starts refractory (zeros over the batched shape)"
+            elif mix.startswith("Adaptive"):
+                ok = isinstance(st_arg, ast.Call) and dotted(st_arg.func) in ("torch.zeros", "zeros") and len(st_arg.args) == 2 \
+                    and isinstance(st_arg.args[0], ast.Starred) and dotted(st_arg.args[0].value) == "self.shape" \
+                    and isinstance(st_arg.args[1], ast.Call) and isinstance(st_arg.args[1].func, ast.Attribute) and st_arg.args[1].func.attr == "numel"
+                what = "adaptations start at zero, one slot per adaptation time constant, shared over the batch"
+            else:
+                continue
+            ninit += 1
+            ctx.ob("C03.g", f"{c.name}: {what}", ok, ast.unparse(st_arg)[:80], P.loc(init, x), x)
+    ctx.require("C03.g", "initial-state arguments of the neuron constructors", ninit, 16)
     ctx.assume("`dynamics` (the class's _integrate_v) is element-wise")
